@@ -130,6 +130,8 @@ PREREQUISITES = {
         ("C15", "'or are found in a capture file'", sel("C15.R1", "C15.R2")),
         ("C04", "trxcon's TRXD receive path: length / range checks before use", sel("C04.R2", "C04.R3")),
         ("C03", "a datagram that is not taken must not be queued", sel("C03.R2")),
+        ("C10", "a burst of any length taken from L1 is processed for every recipient without an exception leaving the clock thread",
+         sel("C10.R3", key=("forwarded on a version-1 link",))),
         ("C13", "a field value that passes validate() must be encodable (struct.pack would raise inside the forwarding path)",
          either(INVALID_REFUSED, sel("C13.R2"))),
     ],
